@@ -356,6 +356,38 @@ theorem c10_client_closed (ops : List Op) (h : (run {} ops).closed = true) :
   have hi := inv_run ops {} inv_init
   exact hi.none_empty (hi.closed_conn h)
 
+instance decOk (s : St) (op : Op) : Decidable (okOp s op) := by
+  cases op <;> simp only [okOp] <;> exact inferInstance
+
+instance decEnv : (s : St) → (ops : List Op) → Decidable (EnvOK s ops)
+  | _, [] => isTrue trivial
+  | s, op :: ops => by
+    simp only [EnvOK]
+    exact @instDecidableAnd _ _ (decOk s op) (decEnv (step s op) ops)
+
+/-- **Every failure path empties the pending list** — `closeWithErrorWithoutLock` (`failAll`) is the one
+    place where callbacks are failed, and it drops the list whether or not a connection exists
+    (`c.handlers = nil` is not part of the `if c.conn != nil` cleanup).  In particular a `Do` whose
+    dial fails on a ClientConn without connection (refused, timed out, proxy or TLS-handshake error:
+    `c.conn == nil`, `closed` stays false) calls back every pending request and itself once with the
+    error and leaves nothing queued, so the next `Do` on the same ClientConn — the pool hands it out
+    again — starts from an empty list.  (`c10_client_exactly_once` quantifies over these steps too:
+    `do_ false _` is an ordinary operation of the model.) -/
+theorem c10_client_failed_dial (s : St) (sendOk : Bool) (hc : s.closed = false) (hn : s.conn = none) :
+    (step s (.do_ false sendOk)).handlers = [] ∧ (step s (.do_ false sendOk)).conn = none ∧
+    (step s (.do_ false sendOk)).closed = false ∧
+    (step s (.do_ false sendOk)).calls = s.calls ++ (s.handlers ++ [s.nextId]).map (fun h => (h, Out.err)) := by
+  simp [step, hc, hn, failAll, push]
+
+/-- regression of seeded mutation C10-b (handlers kept when the failure happens without a connection):
+    two requests whose dial fails, then a third that connects and is answered — each callback exactly
+    once, the first two with the error, the third with its own response, nothing pending. -/
+example :
+    let s := run {} [Op.do_ false true, .do_ false true, .do_ true true, .onResponse 0 false]
+    s.calls = [(0, .err), (1, .err), (2, .resp (some 2))] ∧ s.handlers = [] ∧
+    EnvOK {} [Op.do_ false true, .do_ false true, .do_ true true, .onResponse 0 false] := by
+  decide
+
 /-- **The k-th callback gets the k-th response or an error** — for every sequence of `Do` (any dial /
     write outcome), responses and close notifications from *any* connection, old or current, timeouts,
     user closes and resets.  The only hypothesis, `EnvOK`, is about the server at the other end of the
@@ -390,15 +422,6 @@ example :
 /-- non-vacuity: three pipelined requests, answered in order, then the server closes -/
 def exOps : List Op :=
   [.do_ true true, .do_ true true, .do_ true true, .onResponse 0 false, .onResponse 0 false, .connClosed 0]
-
-instance decOk (s : St) (op : Op) : Decidable (okOp s op) := by
-  cases op <;> simp only [okOp] <;> exact inferInstance
-
-instance decEnv : (s : St) → (ops : List Op) → Decidable (EnvOK s ops)
-  | _, [] => isTrue trivial
-  | s, op :: ops => by
-    simp only [EnvOK]
-    exact @instDecidableAnd _ _ (decOk s op) (decEnv (step s op) ops)
 
 example : EnvOK {} exOps ∧ (run {} exOps).calls = [(0, .resp (some 0)), (1, .resp (some 1)), (2, .err)] := by
   decide
